@@ -276,6 +276,11 @@ func c06BigBatch(run *common.Run) { bigBatchPart(run, "bigbatch") }
 // bigBatchPart is shared by C01 (per-entry status of invalid entries) and C06 (failing entries leave no trace).
 func bigBatchPart(run *common.Run, sub string) {
 	for ei, engine := range drive.Engines {
+		for c := 0; c < run.N(1, 4); c++ {
+			if idx := 1000 + ei*100 + c; run.Want(sub, idx) && !run.TooMany() {
+				hugeBatchCase(run, sub, engine, idx)
+			}
+		}
 		for c := 0; c < run.N(2, 12); c++ {
 			idx := ei*100 + c
 			if !run.Want(sub, idx) || run.TooMany() {
@@ -337,6 +342,64 @@ func bigBatchPart(run *common.Run, sub string) {
 			srv.Close(true)
 		}
 	}
+}
+
+// hugeBatchCase: one MutateRows request carrying more than 100000 mutations (1001-1100 entries of 100 SetCells; the
+// service limit that client libraries split at). The emulator may apply it or refuse it as a whole - but a refused
+// request must have changed nothing, and an accepted one must report every entry and have stored exactly the entries
+// it reports as OK.
+func hugeBatchCase(run *common.Run, sub string, engine string, idx int) {
+	r := run.Rand("C06.hugebatch", idx)
+	srv, err := drive.Start(engine, gen.BaseClock, "")
+	if err != nil {
+		run.Violation(sub, idx, "cannot start server: "+err.Error(), nil)
+		return
+	}
+	defer srv.Close(true)
+	table := drive.MustTable(srv.Admin, "t", "f1", "f2")
+	m := model.NewTable("f1", "f2")
+	pre := []model.Mut{{Kind: model.SetCell, Fam: "f2", Qual: "old", TS: 1000, Val: "before"}}
+	for _, k := range []string{"hb00000", "hb00500", "hb01000"} {
+		_, nr := m.Apply(k, pre, gen.BaseClock)
+		drive.MutateRow(srv.Data, table, k, pre)
+		m.Commit(k, nr)
+	}
+	n := r.Range(1001, 1100)
+	var entries []drive.Entry
+	for i := 0; i < n; i++ {
+		var muts []model.Mut
+		for c := 0; c < 100; c++ {
+			muts = append(muts, model.Mut{Kind: model.SetCell, Fam: "f1", Qual: fmt.Sprint("q", c), TS: 1000, Val: "v"})
+		}
+		entries = append(entries, drive.Entry{Key: fmt.Sprintf("hb%05d", i), Muts: muts})
+	}
+	st, per, mal := drive.MutateRows(srv.Data, table, entries)
+	desc := fmt.Sprintf("engine=%s MutateRows of %d entries x 100 mutations (%d mutations)", engine, n, n*100)
+	bad := ""
+	switch {
+	case !st.OK():
+		run.Count("huge_requests_refused_as_a_whole", 1)
+		if msg := checkTable(srv.Data, table, m); msg != "" {
+			bad = "the request failed as a whole (" + st.String() + ") but had already changed the table: " + trunc(msg, 500)
+		}
+	case mal != "":
+		bad = "response malformed: " + mal
+	default:
+		run.Count("huge_requests_accepted", 1)
+		for i := 0; i < n; i++ {
+			if per[i].OK() {
+				_, nr := m.Apply(entries[i].Key, entries[i].Muts, gen.BaseClock)
+				m.Commit(entries[i].Key, nr)
+			}
+		}
+		if msg := checkTable(srv.Data, table, m); msg != "" {
+			bad = "table after the request differs from the entries reported as OK: " + trunc(msg, 500)
+		}
+	}
+	if bad != "" {
+		run.Violation(sub, idx, bad+" | "+desc, map[string]any{"engine": engine, "case": desc})
+	}
+	run.Case(common.Hash64("hugebatch", desc), true)
 }
 
 func sortedKeys(m map[int]bool) []int {
